@@ -63,6 +63,8 @@ func init() {
 			out = append(out, &vexplore.Scenario{Name: fmt.Sprintf("%s-hist-D%d", k.n, d+1), Mode: "hist", Reset: kit.ResetGlobals, Body: func() { pushHist(k.n, k.c, d+1) },
 				NeedCounters: []string{"push-delivered", "push-after-loss"}})
 			out = append(out, &vexplore.Scenario{Name: k.n + "-sched-two-senders", Mode: "sched", Bound: b, Reset: kit.ResetGlobals, Body: func() { pushSched(k.c) }})
+			out = append(out, &vexplore.Scenario{Name: k.n + "-sched-send-vs-dispatcher-going-idle", Mode: "sched", Bound: b, Reset: kit.ResetGlobals, Body: func() { pushIdleRace(k.c) }})
+			out = append(out, &vexplore.Scenario{Name: k.n + "-sched-peer-leaves-during-send", Mode: "sched", Bound: b, Reset: kit.ResetGlobals, Body: func() { pushPeerLeaves(k.c) }})
 		}
 		for _, k := range []struct {
 			n string
@@ -588,6 +590,95 @@ func pushSched(c ctor) {
 		kit.Failf("invented", "peers received %d distinct messages, 4 were sent", len(seen))
 	}
 	kit.Observe("%d/%d", pipes[0].NumSent(), pipes[1].NumSent())
+	kit.Must("Close", func() { _ = s.Close() })
+}
+
+// pushIdleRace: the peer has just taken a message, so the socket's dispatcher is woken, finds
+// nothing more to send and is about to go idle, when the application sends the next message.  The
+// peer is connected and takes freely: the message has to reach it (no lost wake-up).
+func pushIdleRace(c ctor) {
+	s, err := c()
+	must(err, "NewSocket")
+	ep := vt.Get("pushi")
+	must(s.Listen("vt://pushi"), "Listen")
+	p := ep.Connect()
+	p.Hold(true)
+	kit.Quiesce()
+	// (the second sender exists from the start and waits at a gate, so that it is an older thread
+	// than the library goroutine that carries m1: fewer deviations reach the interesting window)
+	gate := make(chan struct{})
+	s2 := kit.Start("Send2", func() (interface{}, error) { <-gate; return nil, kit.SendBytes(s, []byte("m2")) })
+	s1 := kit.Start("Send1", func() (interface{}, error) { return nil, kit.SendBytes(s, []byte("m1")) })
+	kit.Quiesce()
+	if !s1.Done() || s1.Err != nil {
+		kit.Failf("send-stuck", "Send1 done=%v %s", s1.Done(), kit.ErrName(s1.Err))
+	}
+	p.Hold(false) // the transmission in progress completes and the connection becomes ready again ...
+	p.Take(1)
+	close(gate) // ... while the next message is sent
+	kit.Quiesce()
+	if !s2.Done() || s2.Err != nil {
+		kit.Failf("send-stuck", "Send2 done=%v %s", s2.Done(), kit.ErrName(s2.Err))
+	}
+	var got []string
+	for _, sm := range p.SentLog() {
+		got = append(got, body(sm))
+	}
+	if fmt.Sprint(got) != "[m1 m2]" {
+		kit.Failf("accepted-but-not-delivered", "both Sends returned, the peer is connected and takes everything it is given, yet it has %q", got)
+	}
+	kit.Observe("ok")
+	kit.Must("Close", func() { _ = s.Close() })
+}
+
+// pushPeerLeaves: two peers; the application closes the connection to one of them while a
+// message is on its way to it, and that write still completes (the network had taken the bytes).
+// Every message sent after the departure has settled reaches the peer that is still there: the
+// departed connection is never picked again.  Explored over the schedules of the departure against
+// the completing transmission.
+func pushPeerLeaves(c ctor) {
+	s, err := c()
+	must(err, "NewSocket")
+	var handles []mangos.Pipe
+	s.SetPipeEventHook(func(ev mangos.PipeEvent, p mangos.Pipe) {
+		if ev == mangos.PipeEventAttached {
+			handles = append(handles, p)
+		}
+	})
+	ep := vt.Get("pushl")
+	must(s.Listen("vt://pushl"), "Listen")
+	a := ep.Connect()
+	a.Hold(true)
+	a.LateSuccess(true)
+	kit.Quiesce()
+	s1 := kit.Start("Send1", func() (interface{}, error) { return nil, kit.SendBytes(s, []byte("first")) })
+	kit.Quiesce()
+	if !s1.Done() || s1.Err != nil || a.SendersWaiting() != 1 {
+		kit.Failf("setup", "Send1 done=%v %s, %d transmission(s) in progress", s1.Done(), kit.ErrName(s1.Err), a.SendersWaiting())
+	}
+	b := ep.Connect()
+	kit.Quiesce()
+	cl := kit.Start("Pipe.Close", func() (interface{}, error) { return nil, handles[0].Close() })
+	kit.Quiesce()
+	if !cl.Done() {
+		kit.Failf("pipe-close-blocked", "Pipe.Close did not return")
+	}
+	for i := 0; i < 3; i++ {
+		msg := fmt.Sprintf("later%d", i)
+		sc := kit.Start("Send", func() (interface{}, error) { return nil, kit.SendBytes(s, []byte(msg)) })
+		kit.Quiesce()
+		if !sc.Done() || sc.Err != nil {
+			kit.Failf("send-stuck", "Send(%s) done=%v %s with one peer connected and taking", msg, sc.Done(), kit.ErrName(sc.Err))
+		}
+	}
+	var got []string
+	for _, sm := range b.SentLog() {
+		got = append(got, body(sm))
+	}
+	if fmt.Sprint(got) != "[later0 later1 later2]" {
+		kit.Failf("lost-after-peer-left", "one connection was closed earlier (its last write completed), the other peer is connected and takes everything; 3 messages were sent after that, it got %q", got)
+	}
+	kit.Observe("ok")
 	kit.Must("Close", func() { _ = s.Close() })
 }
 
